@@ -129,7 +129,7 @@ fn run_event(net: &mut Net, ev: &Ev, seqs: &mut std::collections::HashMap<usize,
         Ev::Lookup(j, find) => {
             if net.nodes[*j].up {
                 let (tx, _rx) = flume::unbounded::<Box<[Node]>>();
-                let id = net.nodes[*j].id;
+                let id = *net.nodes[*j].m.as_ref().unwrap().actor.info().id();
                 let req = if *find {
                     GetRequestSpecific::FindNode(FindNodeRequestArguments { target: id })
                 } else {
@@ -274,7 +274,13 @@ fn start_get(net: &mut Net, r: usize, key: usize) -> GetRx {
 }
 
 pub fn run_case(r: &mut Rng, evs: Vec<Ev>) -> String {
+    run_case_plan(r, evs, None)
+}
+
+/// `public_plan`: None = loopback addresses; Some(configured) = distinct public addresses, nodes told theirs or not
+pub fn run_case_plan(r: &mut Rng, evs: Vec<Ev>, public_plan: Option<bool>) -> String {
     let mut net = Net::new(r);
+    net.public_plan = public_plan;
     let mut steps: Vec<String> = Vec::new();
     let mut seqs = std::collections::HashMap::new();
     for ev in evs.iter() {
@@ -295,6 +301,11 @@ pub fn run_case(r: &mut Rng, evs: Vec<Ev>) -> String {
             nats(&stored),
             nats(&prev)
         ));
+    }
+    if std::env::var("MLV_DEBUG").is_ok() {
+        let rekeyed = net.nodes.iter().filter(|n| n.up && n.m.as_ref().map(|m| *m.actor.info().id() != n.id).unwrap_or(false)).count();
+        let secure = net.nodes.iter().filter(|n| n.up && n.m.as_ref().map(|m| m.actor.info().id().is_valid_for_ip(*n.addr.ip())).unwrap_or(false)).count();
+        eprintln!("plan {:?}: {} nodes, {} re-keyed, {} with an id valid for their address", public_plan, net.nodes.len(), rekeyed, secure);
     }
     format!("KNet [{}]", steps.join("; "))
 }
@@ -435,6 +446,14 @@ pub fn generate(seed: u64, scale: usize, which: &str) -> Cases {
             let with_dead = i % 2 == 1;
             let plan = join_plan(&mut rr, n, with_dead);
             o.push(if with_dead { "joins-with-dead-addresses" } else { "joins" }, run_case(&mut rr, plan));
+        }
+        // public IP plans: random ids re-keyed after address confirmation, or addresses configured up front
+        for i in 0..(6 * scale) {
+            let mut rr = r.fork();
+            let n = [2usize, 3, 5, 8, 12, 20][i % 6];
+            let configured = i % 2 == 1;
+            let plan = join_plan(&mut rr, n, i % 3 == 2);
+            o.push(if configured { "public-plan-configured" } else { "public-plan-rekeying" }, run_case_plan(&mut rr, plan, Some(configured)));
         }
     } else {
         // corpus, run first: the known finding F23 (a get that joins a find_node lookup of the same target)
